@@ -21,3 +21,44 @@ Proof. exact StreamProofs.stream_failing. Qed.
 (* InputOffset never decreases, for every script and terminal condition *)
 Theorem offset_monotone : offset_monotone_statement.
 Proof. exact StreamProofs.offset_monotone. Qed.
+
+(* ---- positions: InputOffset, Buffered, the remainder of Parse (Json/StreamExtraSpec.v, Json/StreamExtraProofs.v) ---- *)
+From Verif Require Import Json.StreamExtraSpec Json.StreamExtraProofs.
+
+(* the rests the grammar leaves after each value of a stream (frame_rests) are those of frame: frame's values are the
+   bytes between consecutive rests *)
+Theorem frame_rests_values : frame_rests_values_statement.
+Proof. exact StreamExtraProofs.frame_rests_values. Qed.
+
+(* each rest is the suffix of the data at value_end (the end e_k of the value before it); its white-space run ends at
+   next_start (the start s_k+1 of the next value, or the end of the data); e_k <= s_k+1 <= len data *)
+Theorem frame_rests_positions : frame_rests_positions_statement.
+Proof. exact StreamExtraProofs.frame_rests_positions. Qed.
+
+(* EVERY clean reader script (any chunking), either terminal condition: one offset per value returned, and InputOffset
+   after the k-th successful Decode satisfies e_k <= InputOffset <= s_k+1 *)
+Theorem offset_range : offset_range_statement.
+Proof. exact StreamExtraProofs.offset_range. Qed.
+
+(* the states kept by all_states are those decode_all goes through (same offsets) *)
+Theorem all_states_offsets : all_states_offsets_statement.
+Proof. exact StreamExtraProofs.all_states_offsets. Qed.
+
+(* after each successful Decode: Buffered (dec.remain) followed by the bytes the reader has not delivered is exactly the
+   input from InputOffset on *)
+Theorem buffered_unconsumed : buffered_statement.
+Proof. exact StreamExtraProofs.buffered_stmt. Qed.
+
+(* ... and it is the rest of the data after the value just returned, less a prefix of its leading white space *)
+Theorem buffered_rest : buffered_rest_statement.
+Proof. exact StreamExtraProofs.buffered_rest. Qed.
+
+(* the framing of json.Parse (parse_frame, over the translated internalParseFlags / skipSpaces / parseValue): when the
+   first value is grammatical the remainder is exactly the bytes after it and its trailing white space, without error;
+   otherwise an error is returned *)
+Theorem parse_remainder : parse_remainder_statement.
+Proof. exact StreamExtraProofs.parse_remainder. Qed.
+
+(* hence an empty remainder without error (what Unmarshal requires) exactly for the JSON texts of the grammar *)
+Theorem parse_unmarshal : parse_unmarshal_statement.
+Proof. exact StreamExtraProofs.parse_unmarshal. Qed.
